@@ -131,6 +131,7 @@ package rtcp
 
 //@ func getPadding(packetLen int) (result int)
 //@   safety[C01,C09,C17]
+//@   allocates[C01] 0
 //@   requires packetLen >= 0
 //@   ensures result == specPad4(packetLen)
 
@@ -304,3 +305,240 @@ package rtcp
 //@   ensures[C04] unpadded: err == nil && rawPacket[0]>>5&1 == 0 ==> seqEq(a.Data, rawPacket[12:])
 //@   ensures[C04] padded: err == nil && rawPacket[0]>>5&1 == 1 ==> seqEq(a.Data, rawPacket[12:len(rawPacket)-int(rawPacket[len(rawPacket)-1])])
 //@   ensures[C04] accepts: len(rawPacket) >= 12 && rawPacket[0]>>6 == 2 && rawPacket[1] == 204 && len(rawPacket) == 4*(int(be16(rawPacket, 2))+1) && (rawPacket[0]>>5&1 == 0 || int(rawPacket[len(rawPacket)-1]) <= len(rawPacket)-12) ==> err == nil
+
+// ===================================================================================================
+// picture_loss_indication.go
+// ===================================================================================================
+
+//@ func (p *PictureLossIndication) MarshalSize() (result int)
+//@   safety[C09,C17]
+//@   ensures size: result == 12
+
+//@ func (p *PictureLossIndication) Header() (result Header)
+//@   safety[C09,C17]
+//@   ensures[C05] hdr: result == Header{Padding: false, Count: 1, Type: TypePayloadSpecificFeedback, Length: 2}
+
+//@ func (p PictureLossIndication) Marshal() (result []byte, err error)
+//@   safety[C09]
+//@   fresh
+//@   ensures[C08] ok: err == nil
+//@   ensures[C03,C05] size: len(result) == 12
+//@   ensures[C03,C05,C07] header: be32(result, 0) == specHeaderWord(false, 1, 206, 2)
+//@   ensures[C03] body: be32(result, 4) == p.SenderSSRC && be32(result, 8) == p.MediaSSRC
+
+//@ func (p *PictureLossIndication) Unmarshal(rawPacket []byte) (err error)
+//@   safety[C01]
+//@   modifies *p
+//@   nocap
+//@   allocates[C01] 0
+//@   ensures[C04,C07] ok: (err == nil) <==> (len(rawPacket) >= 12 && rawPacket[0]>>6 == 2 && rawPacket[1] == 206 && rawPacket[0]&31 == 1)
+//@   ensures[C04] fields: err == nil ==> p.SenderSSRC == be32(rawPacket, 4) && p.MediaSSRC == be32(rawPacket, 8)
+
+//@ func (p *PictureLossIndication) DestinationSSRC() (result []uint32)
+//@   safety[C09,C10]
+//@   fresh
+//@   ensures[C10] one: len(result) == 1 && result[0] == p.MediaSSRC
+
+//@ func (p *PictureLossIndication) String() (result string)
+//@   safety[C17]
+
+// ===================================================================================================
+// rapid_resynchronization_request.go
+// ===================================================================================================
+
+//@ func (p *RapidResynchronizationRequest) MarshalSize() (result int)
+//@   safety[C09,C17]
+//@   ensures size: result == 12
+
+//@ func (p *RapidResynchronizationRequest) Header() (result Header)
+//@   safety[C09,C17]
+//@   ensures hdr: result == Header{Padding: false, Count: 5, Type: TypeTransportSpecificFeedback, Length: 2}
+
+//@ func (p RapidResynchronizationRequest) Marshal() (result []byte, err error)
+//@   safety[C09]
+//@   fresh
+//@   ensures[C08] ok: err == nil
+//@   ensures[C03,C05] size: len(result) == 12
+//@   ensures[C03,C05,C07] header: be32(result, 0) == specHeaderWord(false, 5, 205, 2)
+//@   ensures[C03] body: be32(result, 4) == p.SenderSSRC && be32(result, 8) == p.MediaSSRC
+
+//@ func (p *RapidResynchronizationRequest) Unmarshal(rawPacket []byte) (err error)
+//@   safety[C01]
+//@   modifies *p
+//@   nocap
+//@   allocates[C01] 0
+//@   ensures[C04,C07] ok: (err == nil) <==> (len(rawPacket) >= 12 && rawPacket[0]>>6 == 2 && rawPacket[1] == 205 && rawPacket[0]&31 == 5)
+//@   ensures[C04] fields: err == nil ==> p.SenderSSRC == be32(rawPacket, 4) && p.MediaSSRC == be32(rawPacket, 8)
+
+//@ func (p *RapidResynchronizationRequest) DestinationSSRC() (result []uint32)
+//@   safety[C09,C10]
+//@   fresh
+//@   ensures[C10] one: len(result) == 1 && result[0] == p.MediaSSRC
+
+//@ func (p *RapidResynchronizationRequest) String() (result string)
+//@   safety[C17]
+
+// ===================================================================================================
+// slice_loss_indication.go
+// ===================================================================================================
+
+//@ func (p *SliceLossIndication) MarshalSize() (result int)
+//@   safety[C09,C17]
+//@   ensures size: result == 12 + 4*len(p.SLI)
+
+//@ func (p *SliceLossIndication) Header() (result Header)
+//@   safety[C09,C17]
+//@   ensures hdr: result == Header{Padding: false, Count: 2, Type: TypeTransportSpecificFeedback, Length: uint16((12+4*len(p.SLI))/4 - 1)}
+
+//@ func (p SliceLossIndication) Marshal() (result []byte, err error)
+//@   safety[C09]
+//@   fresh
+//@   ensures[C08] ok: len(p.SLI) <= 253 ==> err == nil
+//@   ensures[C08] nobytes: err != nil ==> len(result) == 0
+//@   ensures[C03,C05] size: err == nil ==> len(result) == 12 + 4*len(p.SLI)
+//@   ensures[C03,C05] header: err == nil ==> result[0] == 0x82 && be16(result, 2) == uint16(len(result)/4-1)
+//@   ensures[C03,C07] pt: err == nil ==> result[1] == 206
+//@   ensures[C03] body: err == nil ==> be32(result, 4) == p.SenderSSRC && be32(result, 8) == p.MediaSSRC
+//@   ensures[C03,C16] entries: forall k :: err == nil && 0 <= k && k < len(p.SLI) ==> be32(result, 12+4*k) == specSLIWord(p.SLI[k])
+//@   loop 1
+//@     invariant 0 <= iter() && iter() <= len(p.SLI) && len(p.SLI) <= 253
+//@     invariant[C03] be32(rawPacket, 0) == p.SenderSSRC && be32(rawPacket, 4) == p.MediaSSRC
+//@     invariant[C03,C16] forall k :: 0 <= k && k < iter() ==> be32(rawPacket, 8+4*k) == specSLIWord(p.SLI[k])
+//@     decreases len(p.SLI) - iter()
+
+//@ func (p *SliceLossIndication) Unmarshal(rawPacket []byte) (err error)
+//@   safety[C01]
+//@   modifies *p
+//@   nocap
+//@   allocates[C01] 64 + 2*len(rawPacket)
+//@   ensures[C07] type: err == nil ==> rawPacket[0]>>6 == 2 && rawPacket[1] == 206 && rawPacket[0]&31 == 2
+//@   ensures[C04] fields: err == nil ==> p.SenderSSRC == be32(rawPacket, 4) && p.MediaSSRC == be32(rawPacket, 8)
+//@   ensures[C04] count: err == nil && be16(rawPacket, 2) < 16384 ==> len(p.SLI) == int(be16(rawPacket, 2)) - 2
+//@   ensures[C04,C16] entries: forall k :: err == nil && 0 <= k && k < len(p.SLI) ==> p.SLI[k] == specSLIDecode(be32(rawPacket, 12+4*k))
+//@   ensures[C04] accepts: len(rawPacket) >= 12 && rawPacket[0]>>6 == 2 && rawPacket[1] == 206 && rawPacket[0]&31 == 2 && be16(rawPacket, 2) >= 2 && be16(rawPacket, 2) < 16384 && len(rawPacket) >= 4+4*int(be16(rawPacket, 2)) ==> err == nil
+//@   loop 1
+//@     invariant i == 12 + 4*len(p.SLI) && i <= 4+int(h.Length*4) && unchanged(p.SenderSSRC) && unchanged(p.MediaSSRC)
+//@     invariant[C04,C16] forall k :: 0 <= k && k < len(p.SLI) ==> p.SLI[k] == specSLIDecode(be32(rawPacket, 12+4*k))
+//@     invariant[C01] allocated() <= 6*len(p.SLI)
+//@     decreases 4+int(h.Length*4) - i
+
+//@ func (p *SliceLossIndication) DestinationSSRC() (result []uint32)
+//@   safety[C09,C10]
+//@   fresh
+//@   ensures[C10] one: len(result) == 1 && result[0] == p.MediaSSRC
+
+//@ func (p *SliceLossIndication) String() (result string)
+//@   safety[C17]
+
+// ===================================================================================================
+// full_intra_request.go
+// ===================================================================================================
+
+//@ func (p *FullIntraRequest) MarshalSize() (result int)
+//@   safety[C09,C17]
+//@   ensures size: result == 12 + 8*len(p.FIR)
+
+//@ func (p *FullIntraRequest) Header() (result Header)
+//@   safety[C09,C17]
+//@   ensures hdr: result == Header{Padding: false, Count: 4, Type: TypePayloadSpecificFeedback, Length: uint16((12+8*len(p.FIR))/4 - 1)}
+
+//@ func (p FullIntraRequest) Marshal() (result []byte, err error)
+//@   safety[C09]
+//@   fresh
+//@   ensures[C08] ok: err == nil
+//@   ensures[C03,C05] size: len(result) == 12 + 8*len(p.FIR)
+//@   ensures[C03,C05,C07] header: len(result) <= 4*65536 ==> be32(result, 0) == specHeaderWord(false, 4, 206, uint16(len(result)/4-1))
+//@   ensures[C03] body: be32(result, 4) == p.SenderSSRC && be32(result, 8) == p.MediaSSRC
+//@   ensures[C03,C16] entries: forall k :: 0 <= k && k < len(p.FIR) ==> be32(result, 12+8*k) == p.FIR[k].SSRC && result[12+8*k+4] == p.FIR[k].SequenceNumber && be24(result, 12+8*k+5) == 0
+//@   loop 1
+//@     invariant 0 <= iter() && iter() <= len(p.FIR)
+//@     invariant[C03] be32(rawPacket, 0) == p.SenderSSRC && be32(rawPacket, 4) == p.MediaSSRC
+//@     invariant[C03,C16] forall k :: 0 <= k && k < iter() ==> be32(rawPacket, 8+8*k) == p.FIR[k].SSRC && rawPacket[8+8*k+4] == p.FIR[k].SequenceNumber && be24(rawPacket, 8+8*k+5) == 0
+//@     invariant[C03,C16] forall k :: 8+8*iter() <= k && k < len(rawPacket) ==> rawPacket[k] == 0
+//@     decreases len(p.FIR) - iter()
+
+//@ func (p *FullIntraRequest) Unmarshal(rawPacket []byte) (err error)
+//@   safety[C01]
+//@   modifies *p
+//@   nocap
+//@   allocates[C01] 64 + 2*len(rawPacket)
+//@   ensures[C07] type: err == nil ==> rawPacket[0]>>6 == 2 && rawPacket[1] == 206 && rawPacket[0]&31 == 4
+//@   ensures[C04] fields: err == nil ==> p.SenderSSRC == be32(rawPacket, 4) && p.MediaSSRC == be32(rawPacket, 8)
+//@   ensures[C04] count: err == nil && be16(rawPacket, 2) < 16384 ==> 8*len(p.FIR) == 4*int(be16(rawPacket, 2)) - 8
+//@   ensures[C04,C16] entries: forall k :: err == nil && 0 <= k && k < len(p.FIR) ==> p.FIR[k].SSRC == be32(rawPacket, 12+8*k) && p.FIR[k].SequenceNumber == rawPacket[12+8*k+4]
+//@   ensures[C04] accepts: len(rawPacket) >= 12 && rawPacket[0]>>6 == 2 && rawPacket[1] == 206 && rawPacket[0]&31 == 4 && be16(rawPacket, 2) >= 4 && be16(rawPacket, 2)%2 == 0 && be16(rawPacket, 2) < 16384 && len(rawPacket) >= 4+4*int(be16(rawPacket, 2)) ==> err == nil
+//@   loop 1
+//@     invariant i == 12 + 8*len(p.FIR) && i <= 4+int(h.Length*4) && unchanged(p.SenderSSRC) && unchanged(p.MediaSSRC)
+//@     invariant[C04,C16] forall k :: 0 <= k && k < len(p.FIR) ==> p.FIR[k].SSRC == be32(rawPacket, 12+8*k) && p.FIR[k].SequenceNumber == rawPacket[12+8*k+4]
+//@     invariant[C01] allocated() <= 8*len(p.FIR)
+//@     decreases 4+int(h.Length*4) - i
+
+//@ func (p *FullIntraRequest) DestinationSSRC() (result []uint32)
+//@   safety[C09,C10]
+//@   fresh
+//@   ensures[C10] n: len(result) == len(p.FIR)
+//@   ensures[C10] entries: forall k :: 0 <= k && k < len(p.FIR) ==> result[k] == p.FIR[k].SSRC
+//@   loop 1
+//@     invariant 0 <= iter() && iter() <= len(p.FIR) && len(ssrcs) == iter()
+//@     invariant[C10] forall k :: 0 <= k && k < iter() ==> ssrcs[k] == p.FIR[k].SSRC
+//@     decreases len(p.FIR) - iter()
+
+//@ func (p *FullIntraRequest) String() (result string)
+//@   safety[C17]
+//@   loop 1
+//@     invariant 0 <= iter() && iter() <= len(p.FIR)
+//@     decreases len(p.FIR) - iter()
+
+// ===================================================================================================
+// transport_layer_nack.go
+// ===================================================================================================
+
+//@ func (p *TransportLayerNack) MarshalSize() (result int)
+//@   safety[C09,C17]
+//@   ensures size: result == 12 + 4*len(p.Nacks)
+
+//@ func (p *TransportLayerNack) Header() (result Header)
+//@   safety[C09,C17]
+//@   ensures hdr: result == Header{Padding: false, Count: 1, Type: TypeTransportSpecificFeedback, Length: uint16((12+4*len(p.Nacks))/4 - 1)}
+
+//@ func (p TransportLayerNack) Marshal() (result []byte, err error)
+//@   safety[C09]
+//@   fresh
+//@   ensures[C08] ok: len(p.Nacks) <= 253 ==> err == nil
+//@   ensures[C08] nobytes: err != nil ==> len(result) == 0
+//@   ensures[C03,C05] size: err == nil ==> len(result) == 12 + 4*len(p.Nacks)
+//@   ensures[C03,C05,C07] header: err == nil ==> be32(result, 0) == specHeaderWord(false, 1, 205, uint16(len(result)/4-1))
+//@   ensures[C03] body: err == nil ==> be32(result, 4) == p.SenderSSRC && be32(result, 8) == p.MediaSSRC
+//@   ensures[C03,C16] pairs: forall k :: err == nil && 0 <= k && k < len(p.Nacks) ==> be16(result, 12+4*k) == p.Nacks[k].PacketID && be16(result, 12+4*k+2) == uint16(p.Nacks[k].LostPackets)
+//@   loop 1
+//@     invariant 0 <= i && i <= len(p.Nacks) && len(p.Nacks) <= 253
+//@     invariant[C03] be32(rawPacket, 0) == p.SenderSSRC && be32(rawPacket, 4) == p.MediaSSRC
+//@     invariant[C03,C16] forall k :: 0 <= k && k < i ==> be16(rawPacket, 8+4*k) == p.Nacks[k].PacketID && be16(rawPacket, 8+4*k+2) == uint16(p.Nacks[k].LostPackets)
+//@     decreases len(p.Nacks) - i
+
+//@ func (p *TransportLayerNack) Unmarshal(rawPacket []byte) (err error)
+//@   safety[C01]
+//@   modifies *p
+//@   nocap
+//@   allocates[C01] 64 + 2*len(rawPacket)
+//@   ensures[C07] type: err == nil ==> rawPacket[0]>>6 == 2 && rawPacket[1] == 205 && rawPacket[0]&31 == 1
+//@   ensures[C04] fields: err == nil ==> p.SenderSSRC == be32(rawPacket, 4) && p.MediaSSRC == be32(rawPacket, 8)
+//@   ensures[C04] count: err == nil && be16(rawPacket, 2) < 16384 ==> len(p.Nacks) == int(be16(rawPacket, 2)) - 2
+//@   ensures[C04,C16] pairs: forall k :: err == nil && 0 <= k && k < len(p.Nacks) ==> p.Nacks[k].PacketID == be16(rawPacket, 12+4*k) && uint16(p.Nacks[k].LostPackets) == be16(rawPacket, 12+4*k+2)
+//@   ensures[C04] accepts: len(rawPacket) >= 12 && rawPacket[0]>>6 == 2 && rawPacket[1] == 205 && rawPacket[0]&31 == 1 && be16(rawPacket, 2) >= 3 && be16(rawPacket, 2) < 16384 && len(rawPacket) >= 4+4*int(be16(rawPacket, 2)) ==> err == nil
+//@   loop 1
+//@     invariant i == 12 + 4*len(p.Nacks) && i <= 4+int(h.Length*4) && unchanged(p.SenderSSRC) && unchanged(p.MediaSSRC)
+//@     invariant[C04,C16] forall k :: 0 <= k && k < len(p.Nacks) ==> p.Nacks[k].PacketID == be16(rawPacket, 12+4*k) && uint16(p.Nacks[k].LostPackets) == be16(rawPacket, 12+4*k+2)
+//@     invariant[C01] allocated() <= 4*len(p.Nacks)
+//@     decreases 4+int(h.Length*4) - i
+
+//@ func (p *TransportLayerNack) DestinationSSRC() (result []uint32)
+//@   safety[C09,C10]
+//@   fresh
+//@   ensures[C10] one: len(result) == 1 && result[0] == p.MediaSSRC
+
+//@ func (p TransportLayerNack) String() (result string)
+//@   safety[C17]
+//@   loop 1
+//@     invariant 0 <= iter() && iter() <= len(p.Nacks)
+//@     decreases len(p.Nacks) - iter()
